@@ -258,3 +258,50 @@ pub fn nested(kind: usize, depth: usize) -> String {
     }
     format!("def main(x: i64): i64 {{ {body} }}")
 }
+
+/// names a compiler has to cope with: very long, ending in more digits than fit into a machine
+/// word, ending in the largest 64-bit numbers, with leading zeros, underscores only
+const EXTREME_NAMES: &[&str] = &[
+    "x99999999999999999999",
+    "v18446744073709551615",
+    "v18446744073709551616",
+    "a9223372036854775807",
+    "x0000000000000000000000000000000000000001",
+    "k340282366920938463463374607431768211456",
+    "x00",
+    "x_0",
+    "___",
+    "_0",
+    "x1x1x1x1x1x1x1x1x1x1x1x1x1x1x1x1x1x1x1x1x1x1x1x1x1x1x1x1x1x1x1x1x1x1x1x1x1x1x1x1",
+];
+
+/// a valid program stays valid: every occurrence of one or two lower-case identifiers (variables,
+/// labels, definitions, destructors) is replaced by an extreme name that the program does not use
+pub fn rename_to_extreme(src: &str, rng: &mut Rng) -> (String, String) {
+    let mut t = tokenize(src);
+    let mut what = Vec::new();
+    for _ in 0..1 + rng.below(2) {
+        let words: Vec<String> = t
+            .iter()
+            .filter_map(|x| match x {
+                Tok::Word(w) if w.chars().next().is_some_and(|c| c.is_ascii_lowercase() || c == '_') && !KEYWORDS.contains(&w.as_str()) && w != "main" => Some(w.clone()),
+                _ => None,
+            })
+            .collect();
+        if words.is_empty() {
+            break;
+        }
+        let from = rng.pick(&words).clone();
+        let to = if rng.chance(1, 6) { format!("{}{}", from, "9".repeat(20 + rng.below(30))) } else if rng.chance(1, 8) { "long_".repeat(200 + rng.below(400)) } else { rng.pick(EXTREME_NAMES).to_string() };
+        if t.iter().any(|x| matches!(x, Tok::Word(w) if *w == to)) {
+            continue;
+        }
+        for x in t.iter_mut() {
+            if matches!(x, Tok::Word(w) if *w == from) {
+                *x = Tok::Word(to.clone());
+            }
+        }
+        what.push(format!("{from} -> {}", if to.len() > 60 { format!("{}... ({} characters)", &to[..40], to.len()) } else { to }));
+    }
+    (untokenize(&t), what.join(", "))
+}
